@@ -2,6 +2,11 @@
 //! tree on every check) on generated cases and prints one protocol line per call:
 //!     <request> => <implementation answer>
 //! usage: pgharness <PROP> --seed S --cases N [--shard i/n] [--only k] [--tier quick|thorough]
+mod c16;
+mod c03;
+mod c15;
+mod c20;
+mod c05;
 mod common;
 mod rng;
 mod c07;
@@ -45,6 +50,11 @@ fn main() {
         "C07" => c07::run,
         "C08" => c08::run,
         "C19" => c19::run,
+        "C16" => c16::run,
+        "C03" => c03::run,
+        "C15" => c15::run,
+        "C20" => c20::run,
+        "C05" => c05::run,
         _ => { eprintln!("unknown property {}", prop); std::process::exit(2); }
     };
     let range: Vec<u64> = match only {
